@@ -76,6 +76,8 @@ Definition core0 : list op :=
     Tx "bob" "PM" (WPm (PmProvide None None None "o.a" (Some 86400) None)) [("uom", 1000000); ("uusd", 2000000)];   (* locked in the farm manager *)
     Tx "bob" "PM" (WPm (PmRoute [{| so_in := "uusd"; so_out := "uom"; so_pool := "o.a" |}] None None (Some 500000000000000000))) [("uusd", 3000)];
     Tx "carol" "PM" (WPm (PmSwap "uom" None (Some 1) None "o.a")) [("uusd", 900000000)];     (* rejected: slippage *)
+    Tx "alice" "FM" (WFm (FmPosCreate (Some "q") 86400 None)) [(lp0, 500000)];                 (* farm-manager side *)
+    Tx "alice" "FM" (WFm (FmPosClose "u-q" None)) [];
     Tx "alice" "PM" (WPm (PmWithdraw "o.a")) [(lp0, 1000000)] ].
 
 Definition ledger_statement : Prop :=
@@ -105,7 +107,8 @@ Proof.
              | |- Forall _ (_ :: _) =>
                  constructor; [cbn [covered_op];
                                first [exact I | discriminate
-                                     | (split; [discriminate | right; split; [reflexivity | first [exact I | discriminate | idtac]]])] |]
+                                     | (split; [discriminate | right; right; split; [reflexivity | first [exact I | discriminate | idtac]]])
+                                     | (split; [discriminate | right; left; split; [reflexivity | exact I]])] |]
              end.
       intros d. cbn [BankProofs.camt denom_of amount_of fst snd]. unfold U128_MAX. destruct (String.eqb "uom" d), (String.eqb "uusd" d); lia.
     + unfold core0. repeat constructor; try discriminate; exact I.
